@@ -629,45 +629,24 @@ func pushPrefixLeaf(d *DPath) string {
 	if !(et.K == "const" && et.C == nil) {
 		return "error"
 	}
-	// appended constants and length encodings, in order
+	// the bytes returned on this path, as a layout: constants and encodings of len(data)
 	var parts []string
-	for _, c := range pathCalls(d) {
-		n := calleeShort(c)
+	w := newWEval(theProg, d.Blocks[0].Parent())
+	w.pathPhi = d.Env.Phi
+	l := seqOf(w.eval(d.Ret.Results[0]))
+	for _, it := range l.Items {
+		isLen := strings.Contains(it.S, "len(p0)")
 		switch {
-		case n == "append":
-			// appended element(s): a literal array store precedes; look at the variadic slice
-			if sl, ok := c.Call.Args[1].(*ssa.Slice); ok {
-				if al, ok := sl.X.(*ssa.Alloc); ok {
-					for _, r := range *al.Referrers() {
-						if ia, ok := r.(*ssa.IndexAddr); ok {
-							for _, rr := range *ia.Referrers() {
-								if st, ok := rr.(*ssa.Store); ok {
-									t := d.Env.Term(st.Val)
-									if t.K == "const" && t.C != nil {
-										if v, ok := constValInt(t.C); ok {
-											parts = append(parts, fmt.Sprintf("0x%x", v))
-										}
-									} else if strings.Contains(t.String(), "len(") {
-										parts = append(parts, "len8")
-									} else {
-										parts = append(parts, "len8")
-									}
-								}
-							}
-						}
-					}
-				} else if ms, ok := sl.X.(*ssa.MakeSlice); ok {
-					_ = ms
-				}
-			} else if ms, ok := c.Call.Args[1].(*ssa.MakeSlice); ok {
-				_ = ms
+		case it.K == "const":
+			for k := 0; k+2 <= len(it.S); k += 2 {
+				parts = append(parts, "0x"+strings.TrimLeft(it.S[k:k+2], "0"))
 			}
-		case strings.HasPrefix(n, "PutUint"):
-			end := "LE"
-			if strings.Contains(c.Call.StaticCallee().String(), "bigEndian") {
-				end = "BE"
-			}
-			parts = append(parts, end+strings.TrimPrefix(n, "PutUint"))
+		case it.K == "le" && it.W == 1 && isLen:
+			parts = append(parts, "len8")
+		case (it.K == "le" || it.K == "be") && isLen:
+			parts = append(parts, fmt.Sprintf("%s%d", strings.ToUpper(it.K), it.W*8))
+		default:
+			parts = append(parts, it.String())
 		}
 	}
 	switch len(parts) {
@@ -693,8 +672,8 @@ func decodePartsLeaf(d *DPath) string {
 			n := calleeShort(x)
 			if strings.HasPrefix(n, "Uint") {
 				off := "?"
-				if sl, ok := x.Call.Args[1].(*ssa.Slice); ok && sl.Low != nil {
-					if lo, ok := constInt(sl.Low); ok {
+				if sl, ok := d.Env.Val(x.Call.Args[1]).(*ssa.Slice); ok && sl.Low != nil {
+					if lo, ok := constInt(d.Env.Val(sl.Low)); ok {
 						off = lo.String()
 					}
 				}
@@ -714,7 +693,7 @@ func decodePartsLeaf(d *DPath) string {
 						}
 					}
 				}
-				if lo, ok := constInt(x.Low); ok && lo.Sign() > 0 && !usedByDecode {
+				if lo, ok := constInt(d.Env.Val(x.Low)); ok && lo.Sign() > 0 && !usedByDecode {
 					dataOff = lo.String()
 				}
 			}
